@@ -19,6 +19,7 @@ macro_rules! props {
 }
 
 props! {
+    "C01" => props::c01::C01,
     "C07" => props::c07::C07,
     "C08" => props::c08::C08,
     "C09" => props::c09::C09,
